@@ -307,9 +307,9 @@ PROPS = {
         "Trusted: the virtual world (engine/vw.c, netsim.h) and the comparison. Payloads are fixed unique pseudo-random/compressible packets, not all contents; zlib's Adler-32 is what rejects mis-spliced fragments, so a colliding splice is outside what this decides. Fault histories with more deviations than the bound are not covered.",
         "non-trivial = at least one packet crossed the tunnel; distinct = distinct (set and order of delivered tags per side, repeats, client alive) outcome classes", []),
     "C02": ea_entry("C02",
-        "Clean path: every cell of the grid (excluding forced fragment sizes the record type cannot carry) x latency classes runs four packets per direction, offered back-to-back and spaced; the sequence of tun writes on each side must equal the sequence of packets the peer accepted (exactly once, in order), for every packet that fits in 16 fragments.",
-        "Recovery after a fault window is checked as bounded response on finite runs (see DESIGN.md C02); 'accepted' is evaluated from read-only accessors at the moment the program reads its tun.",
-        "distinct = distinct delivery outcome classes", []),
+        "Clean path: every cell of the grid (excluding forced fragment sizes the record type cannot carry) x latency classes runs four packets per direction, offered back-to-back and spaced; the sequence of tun writes on each side must equal the sequence of packets the peer accepted (exactly once, in order), for every packet that fits in 16 fragments. Recovery: in every cell of the pairwise-covering subset a 120-byte packet is offered on each tun every second for 105 virtual seconds; each of 17 outages (all queries / all answers / all datagrams dropped for 3, 7.4, 8, 12, 14, 25 or 35 s at several offsets) is followed by a clean path; neither program may have ended, and every packet offered from 45 s after the outage on must arrive exactly once, in order, within 10 s.",
+        "Recovery is decided as bounded response on finite runs (B = 45 s, latency bound 10 s, horizon 105 s; genuine 'eventually' is not what a bounded explorer decides). A cell that cannot carry the offered load without any outage is reported as not judged instead of raising an alarm. 'accepted' is evaluated from read-only accessors at the moment the program reads its tun.",
+        "distinct = distinct delivery outcome classes (clean-path runs) and distinct (outage, deliveries) classes (recovery runs)", ["recovery_runs", "recovery_probes_checked", "recovery_cells_not_judged"]),
     "C10": ea_entry("C10",
         "Every datagram emitted by the real client and the real server in every execution of the C01 exploration (clean path on all cells, every single fate deviation on the pairwise subset) is parsed by an independent strict RFC 1035 parser; every server answer must pair with a received, not yet answered query with the same requester, id, question name (byte-exact) and type.",
         "Trusted: ref/refdns.c. NS / A(ns,www) auxiliary answers are enumerated separately (see the C10 aux check in DESIGN.md); queries whose labels contain '.' or NUL are outside the property.",
